@@ -27,10 +27,11 @@ type gty struct {
 	Elem   *gty
 	N      int64
 	Fields []gfield
+	Emb    bool // as a field type: the field is embedded
 }
 type gfield struct {
 	Name string
-	T    *gty
+	T    *gty // T.Emb: the field is embedded (written as its type alone and named after it)
 }
 
 var basicKinds = []struct {
@@ -115,7 +116,14 @@ func (t *gty) Src() string {
 		return fmt.Sprintf("[%d]%s", t.N, t.Elem.Src())
 	case "struct":
 		var fs []string
-		for _, f := range t.Fields {
+		for i := range t.Fields {
+			f := &t.Fields[i]
+			if f.T.Emb {
+				ts := f.T.Src()
+				f.Name = strings.TrimPrefix(ts, "*")
+				fs = append(fs, ts)
+				continue
+			}
 			fs = append(fs, f.Name+" "+f.T.Src())
 		}
 		return "struct{" + strings.Join(fs, "; ") + "}"
@@ -431,6 +439,15 @@ func c07(c *Ctx) {
 			[2][]pv{{{"e", nm(st(gfield{"V", arr(4, bt("uint64"))}, gfield{"N", bt("uint32")}))}}, {{"r", bt("uint64")}}},
 			[2][]pv{{{"e", nm(st(gfield{"B", bt("uint8")}, gfield{"V", arr(4, bt("uint64"))}, gfield{"N", bt("uint32")}))}}, {{"r", bt("uint64")}}},
 		)
+		// embedded fields: a field behind an embedded pointer is not part of the value; one inside an embedded
+		// struct is reached through the embedded field's own name
+		inner := nm(st(gfield{"X", bt("uint64")}, gfield{"Y", bt("uint64")}))
+		inner2 := nm(st(gfield{"P", bt("uint32")}, gfield{"Q", bt("uint64")}))
+		inner2.Emb = true
+		corpus = append(corpus,
+			[2][]pv{{{"s", st(gfield{"A", bt("uint64")}, gfield{"", &gty{Kind: "ptr", Elem: inner, Emb: true}})}, {"guard", bt("uint64")}}, {{"r", bt("uint64")}}},
+			[2][]pv{{{"t", st(gfield{"A", bt("uint8")}, gfield{"", inner2}, gfield{"Z", bt("uint16")})}, {"guard", bt("uint64")}}, {{"r", bt("uint64")}}},
+		)
 		if j < len(corpus) {
 			ps, rs = corpus[j][0], corpus[j][1]
 		}
@@ -528,6 +545,10 @@ func c07(c *Ctx) {
 				if j < 150 || c.Thorough() {
 					for _, st := range everyStep() {
 						sweep = append(sweep, []pstep{st})
+					}
+					for _, fn := range fieldNames(v.t) { // every field name occurring anywhere inside the value, asked of the value itself
+						name := fn
+						sweep = append(sweep, []pstep{{"(SField " + cStr(name) + ")", "Field(" + name + ")", func(c gotypes.Component) gotypes.Component { return c.Field(name) }}})
 					}
 					if pre := genPath(rng, v.t); len(pre) > 0 {
 						pre = pre[:1+rng.Intn(len(pre))]
